@@ -283,14 +283,6 @@ theorem c16_splitEq_ann (a : Ann) (ys : List Tok) :
 
 /-! ### single items -/
 
-def annPart : Option Ann → List Tok
-  | some a => .colon :: annToks a
-  | none => []
-
-def dfltPart : Option Ann → List Tok
-  | some d => .eq :: annToks d
-  | none => []
-
 def optWf : Option Ann → Bool
   | some a => a.wf
   | none => true
@@ -707,5 +699,446 @@ theorem c16_helper_parses (anns : String → Ann) (hk : Helper) (s : Sig)
         rw [if_neg (by simp), if_neg (by simp)]
         rw [c16_orderGo_kw, c16_orderGo_kwEnd _ (by simp)]
         simp [helperLeadInfos, helperInfo, helperFieldKind, allDefault, koInfo, List.map_map, Function.comp_def]
+
+/-! ### methods / functions re-rendered from `inspect.signature`: print, then parse, gives the signature back -/
+
+/-- phases of a legal `inspect.Signature` parameter list -/
+inductive VPhase where
+  /-- nothing yet -/
+  | po0
+  /-- only positional-only parameters so far (at least one) -/
+  | po1
+  | pk
+  /-- after `*args` or a keyword-only parameter -/
+  | ko
+  | done
+deriving Repr, DecidableEq
+
+/-- what `inspect.Signature.__init__` enforces: kinds in order, no parameter without default after one with
+    default among the positional ones, no default on `*args` / `**kw` -/
+def validGo : VPhase → Bool → List RParam → Bool
+  | _, _, [] => true
+  | ph, seenD, p :: rest =>
+    match p.kind with
+    | .po => (ph = .po0 || ph = .po1) && !(!p.dflt.isSome && seenD) && validGo .po1 (seenD || p.dflt.isSome) rest
+    | .pk => (ph = .po0 || ph = .po1 || ph = .pk) && !(!p.dflt.isSome && seenD) &&
+               validGo .pk (seenD || p.dflt.isSome) rest
+    | .va => (ph = .po0 || ph = .po1 || ph = .pk) && p.dflt.isNone && validGo .ko seenD rest
+    | .ko => (ph != .done) && validGo .ko seenD rest
+    | .vk => (ph != .done) && p.dflt.isNone && validGo .done seenD rest
+
+def validSig (ps : List RParam) : Bool := validGo .po0 false ps
+
+/-- names are bindable, annotations / defaults are expressions of the subset -/
+def rparamOk (p : RParam) : Bool := identOk p.name && optWf p.ann && optWf p.dflt
+
+def rItem (p : RParam) : Item :=
+  match p.kind with
+  | .va => .va p.name
+  | .vk => .vk p.name
+  | _ => .param p.name p.dflt.isSome
+
+def slashIf (b : Bool) : List Item := if b then [.slash] else []
+def starIf (b : Bool) : List Item := if b then [.star] else []
+
+/-- `sigItemsGo` at the level of classified items -/
+def sigItemsI : Bool → Bool → List RParam → List Item
+  | pending, _, [] => slashIf pending
+  | pending, found, p :: rest =>
+    slashIf (pending && p.kind != .po) ++ starIf (p.kind == .ko && !(found || p.kind == .va)) ++
+      (rItem p :: sigItemsI (p.kind == .po)
+        ((found || p.kind == .va) || (p.kind == .ko && !(found || p.kind == .va))) rest)
+
+theorem c16_sigI_po (pend found : Bool) (p : RParam) (rest : List RParam) (hk : p.kind = .po) :
+    sigItemsI pend found (p :: rest) = .param p.name p.dflt.isSome :: sigItemsI true found rest := by
+  cases pend <;> cases found <;> simp +decide [sigItemsI, hk, rItem, slashIf, starIf] <;> rfl
+
+theorem c16_sigI_pk (pend found : Bool) (p : RParam) (rest : List RParam) (hk : p.kind = .pk) :
+    sigItemsI pend found (p :: rest) = slashIf pend ++ (.param p.name p.dflt.isSome :: sigItemsI false found rest) := by
+  cases pend <;> cases found <;> simp +decide [sigItemsI, hk, rItem, slashIf, starIf] <;> rfl
+
+theorem c16_sigI_va (pend found : Bool) (p : RParam) (rest : List RParam) (hk : p.kind = .va) :
+    sigItemsI pend found (p :: rest) = slashIf pend ++ (.va p.name :: sigItemsI false true rest) := by
+  cases pend <;> cases found <;> simp +decide [sigItemsI, hk, rItem, slashIf, starIf] <;> rfl
+
+theorem c16_sigI_ko (pend found : Bool) (p : RParam) (rest : List RParam) (hk : p.kind = .ko) :
+    sigItemsI pend found (p :: rest) =
+      slashIf pend ++ starIf (!found) ++ (.param p.name p.dflt.isSome :: sigItemsI false true rest) := by
+  cases pend <;> cases found <;> simp +decide [sigItemsI, hk, rItem, slashIf, starIf] <;> rfl
+
+theorem c16_sigI_vk (pend found : Bool) (p : RParam) (rest : List RParam) (hk : p.kind = .vk) :
+    sigItemsI pend found (p :: rest) = slashIf pend ++ (.vk p.name :: sigItemsI false found rest) := by
+  cases pend <;> cases found <;> simp +decide [sigItemsI, hk, rItem, slashIf, starIf] <;> rfl
+
+/-- `*args` / `**kw` never carry a default in a signature -/
+def noVarDefault (p : RParam) : Bool :=
+  match p.kind with
+  | .va => p.dflt.isNone
+  | .vk => p.dflt.isNone
+  | _ => true
+
+theorem c16_rparamToks_classify (p : RParam) (h : rparamOk p = true) (hv : noVarDefault p = true) :
+    classify (rparamToks p) = some (rItem p) := by
+  simp only [rparamOk, Bool.and_eq_true] at h
+  unfold rparamToks rItem
+  cases hk : p.kind
+  · simpa [kindPrefix] using c16_classify_name p.name p.ann p.dflt h.1.1 h.1.2 h.2
+  · simpa [kindPrefix] using c16_classify_name p.name p.ann p.dflt h.1.1 h.1.2 h.2
+  · have hd : p.dflt = none := by simpa [noVarDefault, hk] using hv
+    simpa [kindPrefix, hd, dfltPart] using c16_classify_va p.name p.ann h.1.1 h.1.2
+  · simpa [kindPrefix] using c16_classify_name p.name p.ann p.dflt h.1.1 h.1.2 h.2
+  · have hd : p.dflt = none := by simpa [noVarDefault, hk] using hv
+    simpa [kindPrefix, hd, dfltPart] using c16_classify_vk p.name p.ann h.1.1 h.1.2
+
+theorem c16_rparamToks_flat (p : RParam) : Flat (rparamToks p) := by
+  unfold rparamToks
+  apply c16_flat_append ?_ (c16_flat_cons rfl (c16_flat_append (c16_flat_annPart _) (c16_flat_dfltPart _)))
+  cases p.kind
+  · exact c16_flat_nil
+  · exact c16_flat_nil
+  · exact c16_flat_neutral rfl
+  · exact c16_flat_nil
+  · exact c16_flat_neutral rfl
+
+theorem c16_rparamToks_ne (p : RParam) : rparamToks p ≠ [] := by
+  unfold rparamToks
+  cases p.kind <;> simp [kindPrefix]
+
+theorem c16_slashIf_classify (b : Bool) :
+    classifyAll (if b then [[Tok.slash]] else []) = some (slashIf b) := by cases b <;> rfl
+
+theorem c16_starIf_classify (b : Bool) :
+    classifyAll (if b then [[Tok.star]] else []) = some (starIf b) := by cases b <;> rfl
+
+theorem c16_sigItems_classify (ps : List RParam) (pending found : Bool)
+    (h : ∀ p ∈ ps, rparamOk p = true ∧ noVarDefault p = true) :
+    classifyAll (sigItemsGo pending found ps) = some (sigItemsI pending found ps) := by
+  induction ps generalizing pending found with
+  | nil => cases pending <;> rfl
+  | cons p ps ih =>
+    have hp := h p List.mem_cons_self
+    have hrest := ih (p.kind == .po) ((found || p.kind == .va) || (p.kind == .ko && !(found || p.kind == .va)))
+      (fun q hq => h q (List.mem_cons_of_mem _ hq))
+    have hcl := c16_rparamToks_classify p hp.1 hp.2
+    simp only [sigItemsGo, sigItemsI]
+    apply c16_classifyAll_append
+    · exact c16_classifyAll_append _ _ _ _ (c16_slashIf_classify _) (c16_starIf_classify _)
+    · exact c16_classifyAll_cons _ _ _ _ hcl hrest
+
+theorem c16_sigItems_flat (ps : List RParam) (pending found : Bool) :
+    ∀ y ∈ sigItemsGo pending found ps, Flat y ∧ y ≠ [] := by
+  induction ps generalizing pending found with
+  | nil =>
+    cases pending
+    · simp [sigItemsGo]
+    · intro y hy
+      simp only [sigItemsGo, if_true, List.mem_singleton] at hy
+      subst hy
+      exact ⟨c16_flat_neutral rfl, by simp⟩
+  | cons p ps ih =>
+    intro y hy
+    simp only [sigItemsGo, List.mem_append, List.mem_cons] at hy
+    rcases hy with (hy | hy) | rfl | hy
+    · split at hy
+      · simp only [List.mem_singleton] at hy; subst hy; exact ⟨c16_flat_neutral rfl, by simp⟩
+      · cases hy
+    · split at hy
+      · simp only [List.mem_singleton] at hy; subst hy; exact ⟨c16_flat_neutral rfl, by simp⟩
+      · cases hy
+    · exact ⟨c16_rparamToks_flat p, c16_rparamToks_ne p⟩
+    · exact ih _ _ y hy
+
+theorem c16_valid_done (seenD : Bool) (ps : List RParam) (h : validGo .done seenD ps = true) : ps = [] := by
+  cases ps with
+  | nil => rfl
+  | cons p rest =>
+    simp only [validGo] at h
+    cases hk : p.kind <;> simp [hk] at h
+
+theorem c16_order_ko (ps : List RParam) (seenD : Bool) (acc : List PInfo)
+    (h : validGo .ko seenD ps = true) :
+    orderGo (.kw false) seenD acc (sigItemsI false true ps) = some (acc.reverse ++ ps.map RParam.info) := by
+  induction ps generalizing acc with
+  | nil => simp [sigItemsI, slashIf, orderGo]
+  | cons p rest ih =>
+    simp only [validGo] at h
+    cases hk : p.kind <;> simp [hk] at h
+    · rw [c16_sigI_ko _ _ _ _ hk]
+      simp only [slashIf, starIf, Bool.not_true, Bool.false_eq_true, if_false, List.nil_append, orderGo]
+      rw [if_neg (by simp), if_neg (by simp), ih _ h]
+      simp [RParam.info, hk]
+    · have hr := c16_valid_done _ _ h.2
+      subst hr
+      rw [c16_sigI_vk _ _ _ _ hk]
+      simp [slashIf, sigItemsI, orderGo, RParam.info, hk, h.1]
+
+theorem c16_noDefault_ok {d seenD : Bool} (h : d = true ∨ seenD = false) : (!d && seenD) = false := by
+  cases d <;> cases seenD <;> simp_all
+
+theorem c16_order_pk (ps : List RParam) (s : Sect) (hs : s = .p0 ∨ s = .p1) (seenD : Bool) (acc : List PInfo)
+    (h : validGo .pk seenD ps = true) :
+    orderGo s seenD acc (sigItemsI false false ps) = some (acc.reverse ++ ps.map RParam.info) := by
+  induction ps generalizing seenD acc with
+  | nil => rcases hs with rfl | rfl <;> simp [sigItemsI, slashIf, orderGo]
+  | cons p rest ih =>
+    simp only [validGo] at h
+    cases hk : p.kind <;> simp [hk] at h
+    · -- pk
+      rw [c16_sigI_pk _ _ _ _ hk]
+      simp only [slashIf, Bool.false_eq_true, if_false, List.nil_append, orderGo, hs, if_true]
+      rw [c16_noDefault_ok h.1]
+      simp only [Bool.false_eq_true, if_false]
+      rw [ih _ _ h.2]
+      simp [RParam.info, hk]
+    · -- va
+      rw [c16_sigI_va _ _ _ _ hk]
+      simp only [slashIf, Bool.false_eq_true, if_false, List.nil_append, orderGo, hs, if_true]
+      rw [c16_order_ko _ _ _ h.2]
+      simp [RParam.info, hk, h.1]
+    · -- ko
+      rw [c16_sigI_ko _ _ _ _ hk]
+      simp only [slashIf, starIf, Bool.not_false, Bool.false_eq_true, if_false, if_true, List.nil_append,
+        List.cons_append, orderGo, hs]
+      rw [if_neg (by simp), if_neg (by simp)]
+      rw [c16_order_ko _ _ _ h]
+      simp [RParam.info, hk]
+    · -- vk
+      have hr := c16_valid_done _ _ h.2
+      subst hr
+      rw [c16_sigI_vk _ _ _ _ hk]
+      rcases hs with rfl | rfl <;> simp [slashIf, sigItemsI, orderGo, RParam.info, hk, h.1]
+
+theorem c16_setPo_info (p : RParam) (hk : p.kind = .po) :
+    setPo ⟨p.name, .pk, p.dflt.isSome⟩ = p.info := by
+  simp [setPo, RParam.info, hk]
+
+theorem c16_order_po1 (ps : List RParam) (seenD : Bool) (acc : List PInfo) (hacc : acc ≠ [])
+    (h : validGo .po1 seenD ps = true) :
+    orderGo .p0 seenD acc (sigItemsI true false ps) = some ((acc.map setPo).reverse ++ ps.map RParam.info) := by
+  induction ps generalizing seenD acc with
+  | nil =>
+    have : acc.isEmpty = false := by cases acc <;> simp_all
+    simp [sigItemsI, slashIf, orderGo, this]
+  | cons p rest ih =>
+    have hne : acc.isEmpty = false := by cases acc <;> simp_all
+    simp only [validGo] at h
+    cases hk : p.kind <;> simp [hk] at h
+    · -- po
+      rw [c16_sigI_po _ _ _ _ hk]
+      simp only [orderGo, true_or, if_true]
+      rw [c16_noDefault_ok h.1]
+      simp only [Bool.false_eq_true, if_false]
+      rw [ih _ _ (by simp) h.2]
+      simp [c16_setPo_info p hk]
+    · -- pk
+      rw [c16_sigI_pk _ _ _ _ hk]
+      simp only [slashIf, if_true, List.cons_append, List.nil_append, orderGo, hne, Bool.not_false, Bool.and_true,
+        or_true]
+      rw [c16_noDefault_ok h.1]
+      simp only [Bool.false_eq_true, if_false]
+      rw [c16_order_pk _ _ (Or.inr rfl) _ _ h.2]
+      simp [RParam.info, hk]
+    · -- va
+      rw [c16_sigI_va _ _ _ _ hk]
+      simp only [slashIf, if_true, List.cons_append, List.nil_append, orderGo, hne, Bool.not_false, Bool.and_true,
+        or_true]
+      rw [c16_order_ko _ _ _ h.2]
+      simp [RParam.info, hk, h.1]
+    · -- ko
+      rw [c16_sigI_ko _ _ _ _ hk]
+      have step : orderGo .p0 seenD acc (slashIf true ++ starIf (!false) ++
+          (Item.param p.name p.dflt.isSome :: sigItemsI false true rest)) =
+          orderGo (.kw false) seenD (⟨p.name, .ko, p.dflt.isSome⟩ :: acc.map setPo) (sigItemsI false true rest) := by
+        simp [orderGo, hne, slashIf, starIf]
+      rw [step, c16_order_ko _ _ _ h]
+      simp [RParam.info, hk]
+    · -- vk
+      have hr := c16_valid_done _ _ h.2
+      subst hr
+      rw [c16_sigI_vk _ _ _ _ hk]
+      simp [slashIf, sigItemsI, orderGo, RParam.info, hk, h.1, hne]
+
+theorem c16_order_sig (ps : List RParam) (h : validSig ps = true) :
+    orderItems (sigItemsI false false ps) = some (ps.map RParam.info) := by
+  unfold validSig at h
+  unfold orderItems
+  cases ps with
+  | nil => simp [sigItemsI, slashIf, orderGo]
+  | cons p rest =>
+    cases hk : p.kind
+    · -- po: enter phase po1
+      simp only [validGo, hk] at h
+      simp at h
+      rw [c16_sigI_po _ _ _ _ hk]
+      simp only [orderGo, true_or, if_true, Bool.and_false, Bool.false_eq_true, if_false, Bool.false_or]
+      rw [c16_order_po1 _ _ _ (by simp) h]
+      simp [c16_setPo_info p hk]
+    all_goals
+      have h' : validGo .pk false (p :: rest) = true := by
+        simp only [validGo, hk] at h ⊢
+        simpa using h
+      have := c16_order_pk (p :: rest) .p0 (Or.inl rfl) false [] h'
+      simpa using this
+
+theorem c16_tailOk_ret (ret : Option Ann) (hret : optWf ret = true) :
+    tailOk (retPart ret ++ [.colon, .ellipsis]) = true := by
+  cases ret with
+  | none => rfl
+  | some r =>
+    simp only [retPart, tailOk, List.cons_append, List.reverse_append, List.reverse_cons, List.reverse_nil,
+      List.nil_append, List.reverse_reverse]
+    exact c16_exprOk_ann r hret
+
+/-- print a legal signature the way `_get_list_of_params_with_type` does, parse it: the same names, kinds and
+    default flags come back -/
+theorem c16_method_roundtrip (f : String) (ps : List RParam) (ret : Option Ann) (hf : identOk f = true)
+    (hne : ps ≠ []) (hv : validSig ps = true) (hok : ∀ p ∈ ps, rparamOk p = true ∧ noVarDefault p = true)
+    (hret : optWf ret = true) :
+    parseDef (methodToks f ps ret) = some ⟨f, ps.map RParam.info⟩ := by
+  have hitems : sigItems ps ≠ [] := by
+    cases ps with
+    | nil => exact absurd rfl hne
+    | cons p rest => simp [sigItems, sigItemsGo]
+  cases hsi : sigItems ps with
+  | nil => exact absurd hsi hitems
+  | cons x rest =>
+    have hflat := c16_sigItems_flat ps false false
+    have hpi : parseItems (x :: rest) = some (ps.map RParam.info) := by
+      rw [← hsi]
+      apply c16_parseItems_of _ (sigItemsI false false ps)
+      · exact fun y hy => (hflat y hy).2
+      · exact hitems
+      · exact c16_sigItems_classify ps false false hok
+      · exact c16_order_sig ps hv
+    simp only [methodToks, hsi, parseDef, hf, if_true]
+    rw [c16_splitParams_join x rest (fun y hy => (hflat y (by rw [show sigItemsGo false false ps = x :: rest from hsi]; exact hy)).1)]
+    simp [c16_tailOk_ret ret hret, hpi]
+
+/-! ### class headers and attribute lines -/
+
+theorem c16_exprOk_dotted (ps : List String) (h : dottedOk ps = true) : exprOk (dottedToks ps) = true := by
+  have := c16_runE_dotted [] false ps [] h
+  simp only [List.append_nil, runE] at this
+  simp [exprOk, this]
+
+theorem c16_dotted_ne (ps : List String) (h : dottedOk ps = true) : dottedToks ps ≠ [] := by
+  cases ps with
+  | nil => simp [dottedOk] at h
+  | cons a rest => simp [dottedToks]
+
+theorem c16_class_parses (c : String) (bases : List (List String)) (hc : identOk c = true)
+    (hb : ∀ b ∈ bases, dottedOk b = true) : parseClass (classToks c bases) = some (c, bases.length) := by
+  cases bases with
+  | nil => simp [classToks, parseClass, hc]
+  | cons b rest =>
+    have hflat : ∀ y ∈ dottedToks b :: rest.map dottedToks, Flat y := by
+      intro y hy
+      rcases List.mem_cons.mp hy with rfl | hy
+      · exact c16_flat_dotted b
+      · obtain ⟨q, _, rfl⟩ := List.mem_map.mp hy
+        exact c16_flat_dotted q
+    have hne : ∀ y ∈ dottedToks b :: rest.map dottedToks, y ≠ [] := by
+      intro y hy
+      rcases List.mem_cons.mp hy with rfl | hy
+      · exact c16_dotted_ne b (hb b List.mem_cons_self)
+      · obtain ⟨q, hq, rfl⟩ := List.mem_map.mp hy
+        exact c16_dotted_ne q (hb q (List.mem_cons_of_mem _ hq))
+    have hok : (dottedToks b :: rest.map dottedToks).all exprOk = true := by
+      rw [List.all_eq_true]
+      intro y hy
+      rcases List.mem_cons.mp hy with rfl | hy
+      · exact c16_exprOk_dotted b (hb b List.mem_cons_self)
+      · obtain ⟨q, hq, rfl⟩ := List.mem_map.mp hy
+        exact c16_exprOk_dotted q (hb q (List.mem_cons_of_mem _ hq))
+    have hnot : (dottedToks b :: rest.map dottedToks) ≠ [[]] := by
+      intro e
+      have := hne (dottedToks b) List.mem_cons_self
+      simp only [List.cons.injEq] at e
+      exact this e.1
+    simp only [classToks, List.isEmpty_cons, Bool.false_eq_true, if_false, List.map_cons, parseClass, hc, if_true]
+    rw [c16_splitParams_join _ _ hflat]
+    simp only [hnot, if_false, c16_dropTrailing_id _ hne, hok, if_true]
+    simp
+
+theorem c16_attr_parses (a : Ann) (p : Param) (hn : identOk p.name = true) (h : a.wf = true) :
+    parseAttr (attrToks a p) = some (p.name, p.hasDefault) := by
+  have hc := c16_classify_fieldItem a p hn h
+  unfold attrToks
+  unfold parseAttr
+  rw [hc]
+  simp [fieldItem, toItem]
+
+/-! ### duplicate parameter names (what `compile` rejects although `ast.parse` accepts) -/
+
+theorem c16_dupFree_iff (xs : List String) : dupFree xs = true ↔ xs.Nodup := by
+  induction xs with
+  | nil => simp [dupFree]
+  | cons x xs ih => simp [dupFree, ih]
+
+theorem c16_dupFree_append (xs ys : List String) :
+    dupFree (xs ++ ys) = (dupFree xs && dupFree ys && xs.all (fun x => !ys.contains x)) := by
+  rw [Bool.eq_iff_iff]
+  simp only [Bool.and_eq_true, c16_dupFree_iff, List.nodup_append, List.all_eq_true, Bool.not_eq_true',
+    List.contains_eq_mem, decide_eq_false_iff_not]
+  constructor
+  · rintro ⟨h1, h2, h3⟩
+    exact ⟨⟨h1, h2⟩, fun x hx hy => h3 x hx x hy rfl⟩
+  · rintro ⟨⟨h1, h2⟩, h3⟩
+    exact ⟨h1, h2, fun a ha b hb e => h3 a ha (e ▸ hb)⟩
+
+/-- the fixed parameter names a field keyword can collide with -/
+def fixedNames (lead : List String) (kw : Bool) : List String := lead ++ (if kw then ["kw"] else [])
+
+/-- parameter names of a generated method are pairwise distinct iff no field is named like a fixed parameter -/
+theorem c16_dupFree_method (lead : List String) (fs : List String) (kw : Bool) (hl : dupFree lead = true)
+    (hk : lead.contains "kw" = false) (hf : fs.Nodup) :
+    dupFree (lead ++ (fs ++ (if kw then ["kw"] else []))) = fs.all (fun n => !(fixedNames lead kw).contains n) := by
+  rw [Bool.eq_iff_iff, c16_dupFree_iff]
+  have hl' := (c16_dupFree_iff lead).mp hl
+  have hk' : "kw" ∉ lead := by simpa using hk
+  cases kw
+  · simp only [fixedNames, Bool.false_eq_true, if_false, List.append_nil, List.nodup_append, hl', hf, true_and,
+      List.all_eq_true, Bool.not_eq_true', List.contains_eq_mem, decide_eq_false_iff_not]
+    constructor
+    · intro h n hn hln; exact h n hln n hn rfl
+    · intro h a ha b hb e; exact h b hb (e ▸ ha)
+  · simp only [fixedNames, if_true, List.nodup_append, hl', hf, true_and, List.all_eq_true, Bool.not_eq_true',
+      List.contains_eq_mem, decide_eq_false_iff_not, List.mem_append, List.mem_singleton, not_or,
+      List.nodup_cons, List.not_mem_nil, not_false_eq_true, List.nodup_nil, and_self]
+    constructor
+    · rintro ⟨h1, h2⟩ n hn
+      exact ⟨fun hln => h2 n hln n (Or.inl hn) rfl, fun e => h1 n hn "kw" rfl e⟩
+    · intro h
+      refine ⟨fun a ha b hb e => (h a ha).2 (e.trans hb), fun a ha b hb e => ?_⟩
+      rcases hb with hb | hb
+      · exact (h b hb).1 (e ▸ ha)
+      · exact hk' (hb ▸ e ▸ ha)
+
+theorem c16_nodup_orderedArgs (ps : List Param) (h : (ps.map (·.name)).Nodup) :
+    ((orderedArgs ps).map (·.name)).Nodup := by
+  unfold orderedArgs
+  rw [List.map_append, List.nodup_append]
+  refine ⟨(List.Sublist.map _ List.filter_sublist).nodup h, (List.Sublist.map _ List.filter_sublist).nodup h, ?_⟩
+  intro a ha b hb e
+  subst e
+  obtain ⟨p, hp, rfl⟩ := List.mem_map.mp ha
+  obtain ⟨q, hq, hqn⟩ := List.mem_map.mp hb
+  have hpm := (List.mem_filter.mp hp)
+  have hqm := (List.mem_filter.mp hq)
+  have : q = p := by
+    have hinj := List.inj_on_of_nodup_map h
+    exact hinj hqm.1 hpm.1 hqn
+  subst this
+  simp_all
+
+theorem c16_nodup_stubArgs (dflt : Bool) (c : ClassInfo) : ((stubArgs dflt c).map (·.name)).Nodup := by
+  unfold stubArgs
+  apply c16_nodup_orderedArgs
+  unfold allTypeInfo
+  rw [List.map_map]
+  have : ((fun f : FieldInfo => (⟨f.name, annEndsNone (clsRequired dflt c) f⟩ : Param).name)) = (·.name) := rfl
+  have hsub : ((allFields c).filter (fun f => !f.isConst)).map (·.name) |>.Sublist ((allFields c).map (·.name)) :=
+    List.Sublist.map _ List.filter_sublist
+  exact hsub.nodup (nodupN_allFields c)
 
 end Typedpy.StubText
